@@ -16,6 +16,8 @@ pub mod c05;
 pub mod c10;
 pub mod c16;
 pub mod c17;
+pub mod c20;
+pub mod c12;
 pub mod smoke;
 pub mod exp;
 pub mod c01;
@@ -53,6 +55,8 @@ pub fn plan(id: &str, tier: &str) -> Option<Plan> {
         "C10" => Some(Plan::new(if _t { 40 } else { 12 }, 1500)),
         "C16" => Some(Plan::new(if _t { 36 } else { 12 }, 1800)),
         "C17" => Some(Plan::new(if _t { 40 } else { 12 }, 1500)),
+        "C20" => Some(Plan::new(if _t { 16 } else { 16 }, 1500)),
+        "C12" => Some(Plan::new(if _t { 24 } else { 24 }, 1500)),
         _ => None,
     }
 }
@@ -74,6 +78,8 @@ pub fn spec(id: &str) -> Option<Spec> {
         "C10" => Some(c10::spec()),
         "C16" => Some(c16::spec()),
         "C17" => Some(c17::spec()),
+        "C20" => Some(c20::spec()),
+        "C12" => Some(c12::spec()),
         _ => None,
     }
 }
@@ -95,6 +101,8 @@ pub fn worker(ctx: &WorkerCtx) -> WorkerReport {
         "C10" => c10::worker(ctx),
         "C16" => c16::worker(ctx),
         "C17" => c17::worker(ctx),
+        "C20" => c20::worker(ctx),
+        "C12" => c12::worker(ctx),
         other => {
             let mut r = WorkerReport::default();
             r.inconclusive(format!("no worker for {}", other));
